@@ -67,8 +67,16 @@ def _z(x: Any) -> Any:
     if isinstance(x, bool):
         return z3.BoolVal(x)
     if isinstance(x, int):
-        return z3.IntVal(x)
+        v = _INTVALS.get(x)
+        if v is None:
+            v = z3.IntVal(x)
+            if len(_INTVALS) < 4096:
+                _INTVALS[x] = v
+        return v
     raise TypeError(f"cannot lift {type(x)!r} to a z3 term")
+
+
+_INTVALS: Dict[int, Any] = {}
 
 
 def _is_intlike(x: Any) -> bool:
@@ -85,7 +93,7 @@ class SymBool:
         self.e = e
 
     def __bool__(self) -> bool:
-        return ctx().branch(self.e)
+        return ctx().branch(self.e, True)  # terms inside a SymBool are simplified when it is built (mkbool)
 
     def __eq__(self, o: Any) -> Any:  # type: ignore[override]
         if isinstance(o, (SymBool, bool)):
@@ -370,14 +378,15 @@ class Ctx:
         if self.pos > self.max_depth:
             self.max_depth = self.pos
 
-    def branch(self, e: Any) -> bool:
+    def branch(self, e: Any, simplified: bool = False) -> bool:
         if isinstance(e, bool):
             return e
-        e = z3.simplify(e)
-        if z3.is_true(e):
-            return True
-        if z3.is_false(e):
-            return False
+        if not simplified:
+            e = z3.simplify(e)
+            if z3.is_true(e):
+                return True
+            if z3.is_false(e):
+                return False
         assert self.mode == "sym", "symbolic term in concrete mode"
         tag = e.hash()
         if self.pos < len(self.path):
